@@ -279,6 +279,9 @@ class ManifestContext:
                         # different type of content
                         continue
                     adp_set.representations.append(mf.representation)
+                if not adp_set.representations:
+                    # none of the files of this track is (still) available
+                    continue
                 adp_set.compute_av_values()
                 period.adaptationSets.append(adp_set)
                 if adp_set.content_type == 'video':
